@@ -24,6 +24,10 @@ def colours():
     return GREYS + HUES + NEAR_GREYS
 
 
+DARK_CHROMATIC = [(51, 61, 56), (3, 41, 63), (31, 17, 34), (40, 20, 10), (10, 40, 30), (60, 20, 70)]
+# pairs whose exact WCAG ratio lies within 0.005 BELOW a threshold (3.0 / 4.5 / 7.0): where premature rounding shows
+NEAR_THRESHOLD = [((0, 120, 215), (255, 255, 255)), ((6, 69, 230), (255, 255, 255)), ((119, 119, 119), (7, 7, 7)), ((149, 149, 149), (255, 255, 255)),
+                  ((7, 7, 7), (119, 119, 119)), ((0, 114, 190), (250, 240, 230)), ((174, 174, 174), (36, 36, 36))]
 EDGE = [(38, 255, 0), (0, 255, 215), (226, 255, 0), (255, 40, 0), (0, 60, 255), (255, 0, 200), (46, 255, 0), (0, 255, 90)]
 
 
@@ -33,6 +37,11 @@ def pairs():
             yield t, b
     # vivid colours on the sRGB gamut surface against a background of similar hue and nearby luminance
     # (the search has almost no room there: candidates clip, contrasts tie)
+    for t, b in NEAR_THRESHOLD:
+        yield t, b
+    for t in DARK_CHROMATIC:
+        for b in ((206, 150, 140), (226, 68, 133), (187, 138, 191), (255, 255, 255)):
+            yield t, b
     for t in EDGE:
         for f in (0.95, 0.85, 0.74):
             yield t, tuple(int(round(c * f)) for c in t)
